@@ -170,3 +170,12 @@ package geom
 //@     invariant forall i int :: 0 <= i && i < len(xroots) ==> xroots[i] == loopold(xroots[i])
 //@     invariant roots == nil || (allocatedArr(roots) && arr(roots) != arr(xroots))
 //@     invariant xroots == nil || allocatedArr(xroots)
+
+// ---------------------------------------------------------------------------
+// preconditions of small helpers (C01): what their index expressions rely on
+//@ func Polygon.Sides
+//@   requires[|C01] len(p.Points) >= 1
+//@ func chordLength
+//@   requires[|C01] len(path) >= 1
+//@ func Tri.OrderedSide
+//@   requires[|C01] i >= 0
